@@ -38,6 +38,7 @@ func (c07) Assumptions() []string {
 
 func (c07) Gates(tier string, m map[string]int64) []rt.Gate {
 	return []rt.Gate{
+		rt.GateMin("a later field repeating the name of a sort key", m, "duplicate_name_of_a_sort_key", 50),
 		rt.GateMin("ORDER BY naming the same column twice", m, "repeated_order_column", 20),
 		rt.GateMin("sort keys defined through another select field", m, "alias_defined_sort_key", 50),
 		rt.GateMin("ordered results checked", m, "checked", 2000),
@@ -235,9 +236,22 @@ func (k c07) Run(c *rt.Ctx) {
 			stmt.OrderBy = stmt.OrderBy[:3]
 		}
 	}
+	if !aggregate && len(stmt.OrderBy) > 0 && r.Chance(1, 8) {
+		// a later select field carrying the name of a sort key: the name means the FIRST field
+		nm := stmt.OrderBy[r.Intn(len(stmt.OrderBy))].Name
+		if nm != "key" && nm != "value" {
+			other := []c07Field{{gen.Key(), nm, 'S'}, {gen.Call("strlen", gen.Key()), nm, 'N'}, {gen.Call("lower", gen.Value()), nm, 'S'}}[r.Intn(3)]
+			fields = append(fields, other)
+			stmt.Fields = append(stmt.Fields, gen.Field{E: other.e, Alias: nm})
+			c.Rec.Inc("duplicate_name_of_a_sort_key")
+		}
+	}
 	tps := map[string]byte{}
 	idx := map[string]int{}
 	for i, f := range fields {
+		if _, dup := idx[f.name]; dup {
+			continue // a name refers to the first field that carries it
+		}
 		tps[f.name] = f.tp
 		idx[f.name] = i
 	}
